@@ -42,6 +42,15 @@ CHECKS = {
  "C09": ("exploration", "repeated-run byte comparison over separate processes + hash-schedule canary",
          "Each command (tables, CSV directory, total costs, summary, annual summary, with and without full values) is run N times in separate processes on inputs that weight the hash-ordered paths, and M times in-process; stdout bytes and the output directory tree must be identical. A canary shows how many distinct hash schedules were actually seen. Detection is probabilistic in the number of schedules sampled.",
          "The schedule space cannot be enumerated without replacing the hasher; stderr is not part of the statement.", "C09"),
+ "C11": ("exploration", "round-trip runtime monitor through the real CSV writer and reader + independent parse of the written bytes",
+         "Valid transaction lists are built through the public types, written with the real writer, read back with the real parser and conversion, and written again; the re-read transactions must equal the spec field by field (decimals by value), the second output must be byte-identical unless one of the two differences the statement allows occurred, and Python's csv module independently parses the first output and compares every cell with the spec.",
+         "The harness echoes the Tx it built and the check refuses to judge if that differs from the spec (guards the oracle).", "C11"),
+ "C12": ("exploration", "reference-model runtime monitor over look-up events + exhaustive gap x new-year family",
+         "A publication-calendar model decides what each look-up must return; the real URL choice, JSON parser and RateLoader run behind a series-aware fake requester with the public 'today' override; every look-up uses a fresh loader. The family gap length 0-9 x look-up date Dec 25..Jan 10 x 4 year kinds is enumerated completely; application rows check the converted Amount/Commission cells and the rejection of CAD-with-rate and rate-less other currencies.",
+         "Only valid positive observations of the series the statement names for that year count as published.", "C12"),
+ "C13": ("exploration", "history monitor over recorded cache_read / cache_write / download events",
+         "Histories of runs sharing one cache (in-memory, or a real CsvRatesCache directory) are executed with instrumented cache and remote wrappers; every look-up must equal the no-cache reference answer for that run's data, a year may be downloaded at most once per run, and a look-up whose needed dates are certainly in the cache (an earlier download happened after them) must cause no download unless forced.",
+         "Remote data is monotone over a history (published rates never disappear) and contains everything published before each run's date, as the statement requires.", "C13"),
 }
 PENDING = {}
 
